@@ -60,7 +60,7 @@ GLOBAL_ORDER = ["RE_PATTERN_ESCAPES", "PART_PATTERNS", "PATTERN_PART_FIELDS", "P
 # NamedTuples of this group (own table: translate_funcs.RECORDS is not touched)
 MY_RECORDS = {
     "Pattern": dict(
-        lean="Pattern", source=("patterns.py", "Pattern"), generated=True, params="", leanname="Pattern"),
+        lean="PyPattern", source=("patterns.py", "Pattern"), generated=True, params="", leanname="PyPattern"),
 }
 MY_ANNOTATIONS = {"str": STR, "typ.Pattern[str]": RE}
 MY_CONSTRUCTORS = {"Pattern": ("rec", "Pattern")}
